@@ -94,3 +94,20 @@ Theorem C15_time_exists_example :
   physical_rem [(2, 1)] /\ 0 < 1 /\ 1 < true_A [(2, 1)] 0 /\ true_A [(2, 1)] 1 = 1.
 Proof. exact spec_root_exists_example. Qed.
 Print Assumptions C15_time_exists_example.
+
+(* Newton from the left, any number of steps: started where f >= 0 (at or left of the root) with the true derivative,
+   every iterate lies between its predecessor and the root - the sequence is monotone and never passes the root
+   (that it reaches |f| < 1e-10 within the code's 20 steps is still NOT proved) *)
+Theorem C15_newton_iterates_left : forall data To target r, physical_data data ->
+  fR data To target r = 0 -> (forall x, derR data To x < 0) ->
+  forall n x0, 0 <= fR data To target x0 ->
+    x0 <= newton data To target n x0 <= r /\ 0 <= fR data To target (newton data To target n x0) /\
+    newton data To target n x0 <= newton data To target (S n) x0.
+Proof. exact newton_iterates_left. Qed.
+Print Assumptions C15_newton_iterates_left.
+
+Theorem C15_newton_iterates_example :
+  physical_data [(1, 1)] /\ (forall x, derR [(1, 1)] 0 x < 0) /\ fR [(1, 1)] 0 (/ 2) (ln 2) = 0 /\
+  0 <= fR [(1, 1)] 0 (/ 2) 0.
+Proof. exact newton_iterates_left_example. Qed.
+Print Assumptions C15_newton_iterates_example.
